@@ -466,11 +466,11 @@ func c29Frame(r *simkit.Run) {
 
 func init() {
 	simkit.Register(&simkit.Harness{
-		ID:   "C29",
-		Run:  c29Run,
-		Real: []string{"util.WriteLengthedSlice/NewLengthedBytesSlice", "util.ReadLengthedBytesSlice", "util.ReadLengthedSlice/ReadLengthed/ReadLength/EnsureRead (helper goroutine per read)", "util.BytesFrameWriter/BytesFrameReader"},
-		Stub: []string{"stream: simReader (tape-chosen chunk sizes incl. 1-byte and empty reads, EOF with or after the last chunk, early EOF, error at a drawn offset)"},
-		Rule: "each run draws a list (0 items, a few, dozens, around 32767, up to 40000; items 0..64 KiB, total capped at 1 MiB) and a mode: buffer API (clean input with trailing bytes, EVERY truncation of encodings up to 4 KiB, bit flips biased to length fields), stream API (clean / truncated / reader error / bit flip, chunking 1..70000 bytes), or the frame writer/reader. One condition judges clean, truncated and flipped input alike: an error, or a result whose re-encoding is byte-identical to what was consumed; a clean input must read back identically; a panic in the reading task is a violation. distinct = event-log hash",
+		ID:          "C29",
+		Run:         c29Run,
+		Real:        []string{"util.WriteLengthedSlice/NewLengthedBytesSlice", "util.ReadLengthedBytesSlice", "util.ReadLengthedSlice/ReadLengthed/ReadLength/EnsureRead (helper goroutine per read)", "util.BytesFrameWriter/BytesFrameReader"},
+		Stub:        []string{"stream: simReader (tape-chosen chunk sizes incl. 1-byte and empty reads, EOF with or after the last chunk, early EOF, error at a drawn offset)"},
+		Rule:        "each run draws a list (0 items, a few, dozens, around 32767, up to 40000; items 0..64 KiB, total capped at 1 MiB) and a mode: buffer API (clean input with trailing bytes, EVERY truncation of encodings up to 4 KiB, bit flips biased to length fields), stream API (clean / truncated / reader error / bit flip, chunking 1..70000 bytes), or the frame writer/reader. One condition judges clean, truncated and flipped input alike: an error, or a result whose re-encoding is byte-identical to what was consumed; a clean input must read back identically; a panic in the reading task is a violation. distinct = event-log hash",
 		Assumptions: []string{"an empty item may read back as nil", "when a flipped length field announces more than 4 MiB the simulated stream delivers all remaining bytes in one read, so that the per-read allocation of EnsureRead stays within the worker's memory limit"},
 	})
 }
